@@ -56,8 +56,39 @@ def same_set(xs, ys):
         all(any(same(x, y) for x in xs) for y in ys)
 
 
+def other_reaction(I, repo, cname, qual, pre, has_ts, surface=(1,), lower=False, **ctor):
+    """a further reaction of class ``qual`` in the interpreter ``I``: built by the class's constructor from its own
+    species (<pre>r0, <pre>r1 -> <pre>p0, <pre>p1 through <pre>t0) with its own symbolic coefficients, the reactants
+    listed in ``surface`` on a catalyst site (Chemkin: phase letter - in lower case when asked, as the package accepts
+    it - and a cat_site; OpenMKM: phase objects), the constructor options ``ctor`` as given"""
+    D = I.D
+    rs = []
+    for i in range(2):
+        sp = species(I, '%sr%d' % (pre, i))
+        if cname == 'ChemkinReaction':
+            if i in surface:
+                site = Obj('%ssite%d' % (pre, i), attrs={'site_density': D.sym('%ssden%d' % (pre, i)),
+                                                          'bulk_specie': 'bulk'})
+                sp.attrs.update({'phase': 's' if lower else 'S', 'cat_site': site})
+            else:
+                sp.attrs.update({'phase': 'g' if lower else 'G', 'cat_site': None})
+        elif i in surface:
+            sp.attrs['phase'] = Obj('%sphase%d' % (pre, i), repo.cls('pmutt.omkm.phase.InteractingInterface'),
+                                    attrs={'site_density': D.sym('%ssden%d' % (pre, i))})
+        else:
+            ph = Obj('%sgasphase%d' % (pre, i), repo.cls('pmutt.cantera.phase.IdealGas'))
+            ph.missing.add('site_density')
+            sp.attrs['phase'] = ph
+        rs.append(sp)
+    ps = [species(I, '%sp%d' % (pre, i)) for i in range(2)]
+    ts = [species(I, '%st0' % pre)] if has_ts else None
+    return make_reaction(I, repo, qual, rs, [D.sym('nu_%sr%d' % (pre, i)) for i in range(2)],
+                         ps, [D.sym('nu_%sp%d' % (pre, i)) for i in range(2)], ts,
+                         [D.sym('nu_%st0' % pre)] if has_ts else None, name=pre + 'rxn', **ctor)
+
 def clamp(run, repo):
     n = 0
+    thorough = run.tier == 'thorough'
     for cname, qual in (('ChemkinReaction', CHEM), ('SurfaceReaction', SURF)):
         ci = repo.cls(qual)
         for has_ts in (True, False):
@@ -66,13 +97,31 @@ def clamp(run, repo):
             T, P = D.sym('T'), D.sym('P')
             T2, P2 = D.sym('T2'), D.sym('P2')
             rxn, rs, ps, ts = reaction(I, repo, qual, nts=1 if has_ts else 0)
+            # a mechanism has many reactions of one class, and the writers ask them one after the other under the same
+            # conditions: further reactions in the same interpreter, each with its own species and coefficients and
+            # with the constructor options the first one leaves at their defaults - an adsorption step (sticking
+            # coefficient) whose second reactant sits on a catalyst site, and (thorough tier) a step with given rate
+            # parameters.  The clamp does not depend on any of these options; every answer has the reference of the
+            # reaction that was asked
+            others = [('adsorption step with a surface reactant',
+                       other_reaction(I, repo, cname, qual, 'a', has_ts, surface=(1,), lower=True,
+                                      is_adsorption=True))]
+            if thorough:
+                opts = {'beta': D.sym('beta_b'), 'sticking_coeff': D.sym('stick_b')}
+                if cname == 'SurfaceReaction':
+                    opts.update({'A': D.sym('A_b'), 'Ea': D.sym('Ea_b'), 'direction': 'synthesis', 'id': 'b1'})
+                others.append(('step with given rate parameters, all reactants on sites',
+                               other_reaction(I, repo, cname, qual, 'b', has_ts, surface=(0, 1), **opts)))
+                others.append(('adsorption step with given sticking coefficient, gas reactants only',
+                               other_reaction(I, repo, cname, qual, 'c', has_ts, surface=(), is_adsorption=True,
+                                              sticking_coeff=D.sym('stick_c'))))
             # one reaction object is asked again and again, as the writers of the kinetic-model files do (one object,
             # several run conditions): other pressure at the same temperature, other temperature, and (thorough tier)
             # the first conditions once more.  What an earlier call left on the object must not show in a later answer
             conds = [('', T, P)]
-            if has_ts or run.tier == 'thorough':
+            if has_ts or thorough:
                 conds += [(' again at (T, P2)', T, P2), (' again at (T2, P2)', T2, P2)]
-            if run.tier == 'thorough':
+            if thorough:
                 conds += [(' again at (T, P)', T, P)]
             for X in ('HoRT', 'GoRT'):
                 owner, fn = repo.find_method(ci, 'get_%s_act' % X)
@@ -80,40 +129,56 @@ def clamp(run, repo):
                 dim = 'get_%s_act' % X[0]
                 o2, f2 = repo.find_method(ci, dim)
                 run.fn('%s.%s' % (o2.qual, dim))
+
+                def ask(obj, rev, ctag, Tc, Pc, units, history):
+                    k = 0
+                    kw = {'T': Tc, 'P': Pc}
+                    got = I.call_method(obj, 'get_%s_act' % X, [], dict(kw, rev=rev))
+                    d = expected_delta(I, obj, 'get_' + X, kw, rev, False)
+                    want = [C(0), d]
+                    if has_ts:
+                        want.append(expected_delta(I, obj, 'get_' + X, kw, rev, True))
+                    key = 'TS=%s rev=%s%s' % (has_ts, rev, ctag)
+                    ok = same_set(max_set(I, got), want)
+                    run.check(ok, 'REF.clamp', '%s.get_%s_act' % (cname, X), key,
+                              'activation %s must be max(0, barrier through the transition state%s, reaction '
+                              'change) in the requested direction with the conditions of this call and the species '
+                              'of this reaction%s; got %s'
+                              % (X, '' if has_ts else ' (none here)', history, show(got, 260)), owner.module, fn,
+                              sample='%s.get_%s_act(%s) == max(0, d_act, d)' % (cname, X, key)
+                              if has_ts and rev and obj is rxn else None)
+                    k += 1
+                    # the dimensional getter is the dimensionless one times R(units) T: same direction, same
+                    # conditions (T and P both named), in more than one unit system
+                    for u in units:
+                        gd = I.call_method(obj, dim, [], dict(kw, units=u, rev=rev))
+                        wd = got * gas_constant(I, u) * Tc if isinstance(got, Rat) else None
+                        # equal as numbers: the same normal form, or maxima over the same set of arguments
+                        # (R(units) T is positive: it may stand inside or outside the maximum)
+                        run.check(wd is not None and isinstance(gd, Rat) and
+                                  (same(gd, wd) or same_set(max_set(I, gd), max_set(I, wd))), 'TWIN.act-dim',
+                                  '%s.%s' % (cname, dim), '%s units=%s' % (key, u),
+                                  '%s(units=%r, T, P, rev=%s)%s is %s, expected get_%s_act(T, P, rev=%s) * R(%s) '
+                                  '* T of the same call conditions = %s'
+                                  % (dim, u, rev, ctag, show(gd, 200), X, rev, u, show(wd, 200)), o2.module, f2)
+                        k += 1
+                    return k
+
                 for rev in (False, True):
                     for ctag, Tc, Pc in conds:
-                        kw = {'T': Tc, 'P': Pc}
-                        got = I.call_method(rxn, 'get_%s_act' % X, [], dict(kw, rev=rev))
-                        d = expected_delta(I, rxn, 'get_' + X, kw, rev, False)
-                        want = [C(0), d]
-                        if has_ts:
-                            want.append(expected_delta(I, rxn, 'get_' + X, kw, rev, True))
-                        key = 'TS=%s rev=%s%s' % (has_ts, rev, ctag)
-                        ok = same_set(max_set(I, got), want)
-                        run.check(ok, 'REF.clamp', '%s.get_%s_act' % (cname, X), key,
-                                  'activation %s must be max(0, barrier through the transition state%s, reaction '
-                                  'change) in the requested direction with the conditions of this call%s; got %s'
-                                  % (X, '' if has_ts else ' (none here)',
-                                     ' (the object was asked before under other conditions)' if ctag else '',
-                                     show(got, 260)), owner.module, fn,
-                                  sample='%s.get_%s_act(%s) == max(0, d_act, d)' % (cname, X, key)
-                                  if has_ts and rev else None)
-                        n += 1
-                        # the dimensional getter is the dimensionless one times R(units) T: same direction, same
-                        # conditions (T and P both named), in more than one unit system
-                        for u in (DIM_UNITS if run.tier == 'thorough' else
-                                  DIM_UNITS[:1] if ctag else DIM_UNITS[:1] + DIM_UNITS[-1:]):
-                            gd = I.call_method(rxn, dim, [], dict(kw, units=u, rev=rev))
-                            wd = got * gas_constant(I, u) * Tc if isinstance(got, Rat) else None
-                            # equal as numbers: the same normal form, or maxima over the same set of arguments
-                            # (R(units) T is positive: it may stand inside or outside the maximum)
-                            run.check(wd is not None and isinstance(gd, Rat) and
-                                      (same(gd, wd) or same_set(max_set(I, gd), max_set(I, wd))), 'TWIN.act-dim',
-                                      '%s.%s' % (cname, dim), '%s units=%s' % (key, u),
-                                      '%s(units=%r, T, P, rev=%s)%s is %s, expected get_%s_act(T, P, rev=%s) * R(%s) '
-                                      '* T of the same call conditions = %s'
-                                      % (dim, u, rev, ctag, show(gd, 200), X, rev, u, show(wd, 200)), o2.module, f2)
-                            n += 1
+                        n += ask(rxn, rev, ctag, Tc, Pc,
+                                 DIM_UNITS if thorough else DIM_UNITS[:1] if ctag else DIM_UNITS[:1] + DIM_UNITS[-1:],
+                                 ' (the object was asked before under other conditions)' if ctag else '')
+                        if ctag:
+                            continue
+                        # first reaction, the others at the same conditions, the first one again
+                        for olabel, other in others:
+                            n += ask(other, rev, ' | %s, asked after another reaction of the class' % olabel, Tc, Pc,
+                                     DIM_UNITS if thorough else DIM_UNITS[:1],
+                                     ' (another reaction of the class was asked before at the same conditions)')
+                        n += ask(rxn, rev, ' again after other reactions of the class', Tc, Pc,
+                                 DIM_UNITS[:1] if thorough else (),
+                                 ' (other reactions of the class were asked in between)')
     return n
 
 
@@ -130,9 +195,12 @@ def adj_slope(desc, rev, slope):
 # with a number is answered at a concrete point (a witness, as the other properties do for T against segment bounds):
 # R T = 1 kcal/mol (kb = Na = 1, U<kcal> = 1/500, T = 500 K), slope 0.3, intercept 2 kcal/mol, coefficients 1,
 # enthalpies/energies over RT of the species as listed (dH = -30 or +30 kcal/mol).  The unchanged code never asks.
+# (zr*, zp*: the species of the second reaction the same relation serves, of the same kind but with its own numbers)
 BEP_WITNESSES = (
-    ('exothermic, forward barrier below zero', {'r0': -10, 'r1': -12, 'p0': -25, 'p1': -27}),
-    ('endothermic, reverse barrier below zero', {'r0': -25, 'r1': -27, 'p0': -10, 'p1': -12}),
+    ('exothermic, forward barrier below zero', {'r0': -10, 'r1': -12, 'p0': -25, 'p1': -27,
+                                                'zr0': -8, 'zr1': -9, 'zp0': -30, 'zp1': -31}),
+    ('endothermic, reverse barrier below zero', {'r0': -25, 'r1': -27, 'p0': -10, 'p1': -12,
+                                                 'zr0': -30, 'zr1': -31, 'zp0': -8, 'zp1': -9}),
 )
 
 
@@ -164,16 +232,21 @@ def bep_rules(run, repo):
         for label, values in BEP_WITNESSES:
             n += bep_instance(run, repo, bci, desc, bep_order(values), ' [%s]' % label)
         n += bep_instance(run, repo, bci, desc, None, '')
+        if run.tier == 'thorough':
+            # the relation class of the OpenMKM writers serving reactions of the OpenMKM class (it keeps the reactions
+            # of either direction in lists; the getters are the documented ones of the parent class)
+            n += bep_instance(run, repo, repo.cls('pmutt.omkm.reaction.BEP'), desc, None,
+                              ' [pmutt.omkm.reaction.BEP serving SurfaceReactions]', rqual=SURF)
     return n
 
 
-def bep_instance(run, repo, bci, desc, order, tag):
+def bep_instance(run, repo, bci, desc, order, tag, rqual='pmutt.reaction.Reaction'):
     n = 0
     quick_witness = order is not None and run.tier != 'thorough'
     I = Interp(repo, order=order)
     D = I.D
     T, P = D.sym('T'), D.sym('P')
-    rxn, rs, ps, ts = reaction(I, repo, 'pmutt.reaction.Reaction', nts=0)
+    rxn, rs, ps, ts = reaction(I, repo, rqual, nts=0)
     # through the public constructor: where the class keeps slope and intercept is its own business; the rule
     # recognises them by the symbols it handed in
     bep = I.construct(bci, [], {'slope': D.sym('bep.slope'), 'intercept': D.sym('bep.intercept'), 'name': 'bep',
@@ -283,6 +356,65 @@ def bep_instance(run, repo, bci, desc, order, tag):
     run.check(same(H - Hr, Ef / (Rk * T)), 'REF.bep', 'BEP.get_HoRT', 'descriptor:' + desc + tag,
               'enthalpy of the BEP transition state is not reactants + forward barrier', o2.module, f2)
     n += 2
+    # One relation serves many reactions (a homologous series; pmutt.omkm.reaction.BEP even keeps lists of them): a
+    # second reaction with its own species and coefficients, built by the constructor with the SAME relation object as
+    # its transition state, is asked at the same conditions, then the first reaction once more.  Every barrier is
+    # the relation applied to the descriptor of the reaction that was handed in
+    zr = [species(I, 'zr%d' % i) for i in range(2)]
+    zp = [species(I, 'zp%d' % i) for i in range(2)]
+    rxn2 = make_reaction(I, repo, rqual, zr, [D.sym('nu_zr%d' % i) for i in range(2)],
+                         zp, [D.sym('nu_zp%d' % i) for i in range(2)], [bep], [C(1)], name='rxn2',
+                         **({'direction': 'cleavage', 'id': 'zrxn'} if rqual == SURF else {}))
+    for who, rx in (('second reaction served by the same relation', rxn2),
+                    ('first reaction again after the second', rxn)):
+        E = {rev: I.call_method(bep, 'get_E_act', [], dict(kw, units='kcal/mol', reaction=rx, rev=rev))
+             for rev in (False, True)}
+        if 'delta' in desc:
+            wd = expected_delta(I, rx, q, kw, desc.startswith('rev_'), False) * Rk * T
+        else:
+            wd = expected_state(I, rx, desc.split('_')[0], q, dict(kw, include_ZPE=False) if q == 'get_EoRT' else kw) \
+                * Rk * T
+        for rev in (False, True):
+            we = adj_slope(desc, rev, slope) * wd + icpt
+            run.check(isinstance(E[rev], Rat) and same(E[rev], we), 'REF.bep', 'BEP.get_E_act',
+                      'descriptor:%s rev=%s%s | %s' % (desc, rev, tag, who),
+                      'barrier of the %s is %s, expected (slope%s)*descriptor + intercept with the descriptor of the '
+                      'reaction handed in: %s' % (who, show(E[rev], 200),
+                                                  '' if same(adj_slope(desc, rev, slope), slope) else ' - 1',
+                                                  show(we, 200)), owner.module, fn)
+            n += 1
+        if 'delta' in desc and isinstance(E[False], Rat) and isinstance(E[True], Rat):
+            dq2 = expected_delta(I, rx, q, kw, False, False) * Rk * T
+            run.check(same(E[False] - E[True], dq2), 'ALG.bep-difference', 'BEP.get_E_act',
+                      'descriptor:%s%s | %s' % (desc, tag, who),
+                      'forward minus reverse barrier of the %s is %s, not its reaction %s %s'
+                      % (who, show(E[False] - E[True], 200), 'enthalpy' if q == 'get_HoRT' else 'electronic energy',
+                         show(dq2, 200)), owner.module, fn)
+            n += 1
+        if quick_witness or not isinstance(E[False], Rat) or (rx is rxn and run.tier != 'thorough'):
+            continue
+        if q == 'get_HoRT' and 'delta' in desc:
+            for rev in (False, True):
+                via = I.call_method(rx, 'get_delta_HoRT', [], dict(kw, rev=rev, act=True))
+                run.check(isinstance(E[rev], Rat) and same(via, E[rev] / (Rk * T)), 'ALG.bep-as-TS', 'BEP.get_HoRT',
+                          'descriptor:%s rev=%s%s | %s' % (desc, rev, tag, who),
+                          'activation enthalpy of the %s through the BEP transition state is %s but the relation '
+                          'itself gives %s' % (who, show(via, 200), show(E[rev] / (Rk * T), 200)), o2.module, f2)
+                n += 1
+        U2 = I.call_method(bep, 'get_UoRT', [], dict(kw, reaction=rx))
+        H2 = I.call_method(bep, 'get_HoRT', [], dict(kw, reaction=rx))
+        Ur2 = expected_state(I, rx, 'reactants', 'get_UoRT', kw)
+        Hr2 = expected_state(I, rx, 'reactants', 'get_HoRT', kw)
+        wf = (adj_slope(desc, False, slope) * wd + icpt) / (Rk * T)
+        run.check(isinstance(U2, Rat) and same(U2 - Ur2, wf), 'REF.bep', 'BEP.get_UoRT',
+                  'descriptor:%s%s | %s' % (desc, tag, who),
+                  'internal energy of the BEP transition state of the %s is its reactants + %s, expected reactants + '
+                  'forward barrier %s' % (who, show(U2 - Ur2, 160), show(wf, 160)), o3.module, f3)
+        run.check(isinstance(H2, Rat) and same(H2 - Hr2, wf), 'REF.bep', 'BEP.get_HoRT',
+                  'descriptor:%s%s | %s' % (desc, tag, who),
+                  'enthalpy of the BEP transition state of the %s is its reactants + %s, expected reactants + forward '
+                  'barrier %s' % (who, show(H2 - Hr2, 160), show(wf, 160)), o2.module, f2)
+        n += 2
     return n
 
 
@@ -380,170 +512,212 @@ def species_without(I, name, missing):
 LAYOUTS = ((), (0,), (0, 1), (1, 2), (0, 2), (2,), (1,))
 
 
-def surface_step(I, repo, cname, qual, surf_idx, has_ts, stoich):
+def surface_step(I, repo, cname, qual, surf_idx, has_ts, stoich, pre='', lower=False):
     """a reaction of class ``qual`` built by its own constructor from three reactants that already carry their phase
     and catalyst site (Chemkin: phase letter + cat_site with a site density; OpenMKM: phase objects).  Returns the
-    reaction and the site densities, one per surface reactant molecule, in the order of the reactants"""
+    reaction and the site densities, one per surface reactant molecule, in the order of the reactants.  ``pre``
+    prefixes every name (a second step in the same interpreter); ``lower``: the Chemkin phase letters in lower case
+    (the package compares them case-insensitively: 's' is a surface species as 'S' is)"""
     D = I.D
     rs, sd = [], []
     for i in range(3):
-        sp = species(I, 'r%d' % i)
+        sp = species(I, '%sr%d' % (pre, i))
         if i in surf_idx:
-            den = D.sym('sden%d' % i)
+            den = D.sym('%ssden%d' % (pre, i))
             if cname == 'ChemkinReaction':
-                site = Obj('site%d' % i, attrs={'site_density': den, 'bulk_specie': 'bulk'})
-                sp.attrs.update({'phase': 'S', 'cat_site': site})
+                site = Obj('%ssite%d' % (pre, i), attrs={'site_density': den, 'bulk_specie': 'bulk'})
+                sp.attrs.update({'phase': 's' if lower else 'S', 'cat_site': site})
             else:
-                sp.attrs['phase'] = Obj('phase%d' % i, repo.cls('pmutt.omkm.phase.InteractingInterface'),
+                sp.attrs['phase'] = Obj('%sphase%d' % (pre, i), repo.cls('pmutt.omkm.phase.InteractingInterface'),
                                         attrs={'site_density': den})
             sd += [den] * int(stoich[i].const_value())
         else:
             if cname == 'ChemkinReaction':
-                sp.attrs.update({'phase': 'G', 'cat_site': None})
+                sp.attrs.update({'phase': 'g' if lower else 'G', 'cat_site': None})
             else:
-                ph = Obj('gasphase%d' % i, repo.cls('pmutt.cantera.phase.IdealGas'))
+                ph = Obj('%sgasphase%d' % (pre, i), repo.cls('pmutt.cantera.phase.IdealGas'))
                 ph.missing.add('site_density')
                 sp.attrs['phase'] = ph
         rs.append(sp)
-    ps = [species(I, 'p%d' % i) for i in range(2)]
-    ts = [species(I, 't0')] if has_ts else None
-    rxn = make_reaction(I, repo, qual, rs, stoich, ps, [D.sym('nu_p%d' % i) for i in range(2)], ts,
-                        [D.sym('nu_t0')] if has_ts else None)
+    ps = [species(I, '%sp%d' % (pre, i)) for i in range(2)]
+    ts = [species(I, '%st0' % pre)] if has_ts else None
+    rxn = make_reaction(I, repo, qual, rs, stoich, ps, [D.sym('nu_%sp%d' % (pre, i)) for i in range(2)], ts,
+                        [D.sym('nu_%st0' % pre)] if has_ts else None, name=pre + 'rxn')
     return rxn, sd
+
+
+def site_scale(D, cname, sd, op, nsurf):
+    """(effective site density)^(n_surf-1): the divisor of every factor a step hands out; ``sd`` the site densities
+    (mol/cm2), one per surface reactant molecule"""
+    if not sd:
+        return C(1)
+    if op == 'sum':
+        eff = sum(sd[1:], sd[0])
+    elif op == 'mean':
+        eff = sum(sd[1:], sd[0]) / len(sd)
+    else:
+        uniq = {repr(x): x for x in sd}
+        if len(uniq) == 1:
+            eff = sd[0]
+        else:
+            eff = D.sym('%s{%s}' % (op.upper(), ' | '.join(sorted(uniq))))
+    if cname == 'SurfaceReaction':
+        # mol/cm2 -> molec/cm2 (default units)
+        eff = eff * D.sym('U<molec>')
+    return eff.powi(nsurf - 1)
 
 
 def preexp_surface(run, repo, classes):
     n = 0
+    thorough = run.tier == 'thorough'
     # Chemkin / Surface: kB/h without TS (or without entropy), Reaction.get_A/T with; / sden**(n_surf-1)
     for cname, qual in classes:
         ci = repo.cls(qual)
         owner, fn = repo.find_method(ci, 'get_A')
         run.fn(owner.qual + '.get_A')
-        for has_ts in (True, False):
-            for surf_idx in LAYOUTS:
-                n_surf_species = len(surf_idx)
-                if cname == 'ChemkinReaction' and surf_idx and surf_idx[0] != 0:
-                    # a step written with a gas species first: not instantiated for this class (a Chemkin get_A that
-                    # loses the site densities divides by a literal zero, which the interpreter refuses instead
-                    # of reporting; the layout with the gas species in the middle decides the same loop)
+        # the Chemkin phase letter is a text the user writes: 'S' / 'G' and (accepted alike by the class, its writers
+        # and the empirical models) 's' / 'g'
+        spellings = (False, True) if cname == 'ChemkinReaction' else (False,)
+        for has_ts, surf_idx, lower in [(t_, l_, c_) for t_ in (True, False) for l_ in LAYOUTS for c_ in spellings]:
+            n_surf_species = len(surf_idx)
+            if cname == 'ChemkinReaction' and surf_idx and surf_idx[0] != 0:
+                # a step written with a gas species first: not instantiated for this class (a Chemkin get_A that
+                # loses the site densities divides by a literal zero, which the interpreter refuses instead
+                # of reporting; the layout with the gas species in the middle decides the same loop)
+                continue
+            permuted = surf_idx != tuple(range(n_surf_species))
+            if lower and not thorough and permuted:
+                continue          # quick tier: lower-case letters on the layouts written surface species first
+            for op in ('sum', 'min', 'max', 'mean'):
+                if permuted and not thorough and op in ('min', 'mean'):
+                    continue      # the operation is applied to what was collected: two of them per extra layout
+                if lower and not thorough and op != 'sum':
                     continue
-                permuted = surf_idx != tuple(range(n_surf_species))
-                for op in ('sum', 'min', 'max', 'mean'):
-                    if permuted and run.tier != 'thorough' and op in ('min', 'mean'):
-                        continue      # the operation is applied to what was collected: two of them per extra layout
-                    if n_surf_species == 0 and cname == 'SurfaceReaction':
-                        continue      # documented: raises without any site density
-                    I = Interp(repo)
-                    D = I.D
-                    T, P = D.sym('T'), D.sym('P')
-                    kb, h = D.sym('kb'), D.sym('h')
-                    stoich = [C(1), C(2), C(1)]
-                    # nothing is put on the reaction afterwards: what the constructor concludes from the species
-                    # (gas-phase step or not) is what get_A works with
-                    rxn, sd = surface_step(I, repo, cname, qual, surf_idx, has_ts, stoich)
-                    nsurf = sum(int(stoich[i].const_value()) for i in surf_idx)
-                    got = I.call_method(rxn, 'get_A', [], {'T': T, 'P': P, 'sden_operation': op})
-                    if cname == 'SurfaceReaction' and op == 'sum' and surf_idx == (0, 1):
-                        # the same factor in other unit systems: site densities are mol/cm2, the result is per
-                        # (quantity/length^2)^(n_surf-1) of the units asked for (string or Units object)
-                        from ..xlate import Frame
-                        fr_ = Frame(I, repo.module('pmutt'), {}, None, None)
-                        uobj = fr_.apply(repo.cls('pmutt.omkm.units.Units'), [], {'quantity': 'molec', 'length': 'm'},
-                                         None)
-                        for ulabel, uarg, q_, a_ in (('mol/m2', 'mol/m2', 'mol', 'm2'),
-                                                     ('molec/A2', 'molec/A2', 'molec', 'A2'),
-                                                     ('Units(molec, m)', uobj, 'molec', 'm2')):
-                            gu = I.call_method(rxn, 'get_A', [], {'T': T, 'P': P, 'sden_operation': op,
-                                                                  'units': uarg})
-                            conv = I.unit(q_) / I.unit('mol') / (I.unit(a_) / I.unit('cm2'))
-                            effu = sum(sd[1:], sd[0]) * conv
-                            if has_ts:
-                                kwq_ = {'T': T, 'P': P, 'ignore_q_elec': True, 'include_ZPE': False}
-                                bu = kb / h * expected_delta(I, rxn, 'get_q', kwq_, False, True)
-                            else:
-                                bu = kb / h
-                            wu = bu / effu.powi(nsurf - 1)
-                            run.check(isinstance(gu, Rat) and same(gu, wu), 'REF.A', cname + '.get_A',
-                                      'TS=%s units=%s' % (has_ts, ulabel),
-                                      'A in %s is %s, expected (kB/h%s) / (site density converted mol/cm2 -> %s)^%d = %s'
-                                      % (ulabel, show(gu, 160), ' * q_TS/q_IS' if has_ts else '', ulabel, nsurf - 1,
-                                         show(wu, 160)), owner.module, fn)
-                            n += 1
-                    def q_ratio(Tc, Pc, rev_):
-                        kwq = {'T': Tc, 'P': Pc, 'ignore_q_elec': True, 'include_ZPE': False}
-                        return expected_delta(I, rxn, 'get_q', kwq, rev_, True)
-                    base = kb / h * q_ratio(T, P, False) if has_ts else kb / h
-                    if not permuted:
-                        key = 'TS=%s surface species=%d op=%s' % (has_ts, n_surf_species, op)
-                    else:
-                        key = 'TS=%s surface reactants at %s of 3 op=%s' % (has_ts, '+'.join(map(str, surf_idx)), op)
-                    if not sd:
-                        scale = C(1)
-                    else:
-                        if op == 'sum':
-                            eff = sum(sd[1:], sd[0])
-                        elif op == 'mean':
-                            eff = sum(sd[1:], sd[0]) / len(sd)
+                if n_surf_species == 0 and cname == 'SurfaceReaction':
+                    continue      # documented: raises without any site density
+                I = Interp(repo)
+                D = I.D
+                T, P = D.sym('T'), D.sym('P')
+                kb, h = D.sym('kb'), D.sym('h')
+                stoich = [C(1), C(2), C(1)]
+                # nothing is put on the reaction afterwards: what the constructor concludes from the species
+                # (gas-phase step or not) is what get_A works with
+                rxn, sd = surface_step(I, repo, cname, qual, surf_idx, has_ts, stoich, lower=lower)
+                nsurf = sum(int(stoich[i].const_value()) for i in surf_idx)
+                got = I.call_method(rxn, 'get_A', [], {'T': T, 'P': P, 'sden_operation': op})
+                if cname == 'SurfaceReaction' and op == 'sum' and surf_idx == (0, 1):
+                    # the same factor in other unit systems: site densities are mol/cm2, the result is per
+                    # (quantity/length^2)^(n_surf-1) of the units asked for (string or Units object)
+                    from ..xlate import Frame
+                    fr_ = Frame(I, repo.module('pmutt'), {}, None, None)
+                    uobj = fr_.apply(repo.cls('pmutt.omkm.units.Units'), [], {'quantity': 'molec', 'length': 'm'},
+                                     None)
+                    for ulabel, uarg, q_, a_ in (('mol/m2', 'mol/m2', 'mol', 'm2'),
+                                                 ('molec/A2', 'molec/A2', 'molec', 'A2'),
+                                                 ('Units(molec, m)', uobj, 'molec', 'm2')):
+                        gu = I.call_method(rxn, 'get_A', [], {'T': T, 'P': P, 'sden_operation': op,
+                                                              'units': uarg})
+                        conv = I.unit(q_) / I.unit('mol') / (I.unit(a_) / I.unit('cm2'))
+                        effu = sum(sd[1:], sd[0]) * conv
+                        if has_ts:
+                            kwq_ = {'T': T, 'P': P, 'ignore_q_elec': True, 'include_ZPE': False}
+                            bu = kb / h * expected_delta(I, rxn, 'get_q', kwq_, False, True)
                         else:
-                            uniq = {repr(x): x for x in sd}
-                            if len(uniq) == 1:
-                                eff = sd[0]
-                            else:
-                                eff = D.sym('%s{%s}' % (op.upper(), ' | '.join(sorted(uniq))))
-                        if cname == 'SurfaceReaction':
-                            # mol/cm2 -> molec/cm2 (default units)
-                            eff = eff * D.sym('U<molec>')
-                        # (effective site density)^(n_surf-1): the divisor of every factor this step hands out
-                        scale = eff.powi(nsurf - 1)
-                    want = base / scale
-                    if isinstance(got, Raised):
-                        run.fail('REF.A', cname + '.get_A', key, 'get_A raises %s' % got.exc, owner.module, fn)
-                    else:
-                        run.check(want is not None and same(got, want), 'REF.A', cname + '.get_A', key,
-                                  'A is %s, expected %s = (kB/h%s) / (effective site density)^(n_surf-1) with '
-                                  'n_surf=%d' % (show(got, 200), show(want, 200), ' * q_TS/q_IS' if has_ts else '',
-                                                 nsurf), owner.module, fn,
-                                  sample='%s.get_A: %s' % (cname, key) if op == 'sum' and has_ts else None)
-                    n += 1
-                    # the same object is asked again, as write_surf / to_cti / to_omkm_yaml do: with the other options
-                    # of the getter (each combined with more than one surface reactant), in the other direction, by
-                    # the entropy route with a molecularity, and under other conditions.  Every answer has its own
-                    # reference; nothing an earlier call left behind may show
-                    if isinstance(got, Raised) or (run.tier != 'thorough' and (permuted or op in ('min', 'mean'))):
-                        continue      # quick tier: the layouts written surface species first, one sum and one extremum
-                    T2, P2, m_ = D.sym('T2'), D.sym('P2'), D.sym('m')
-                    again = [('include_entropy=False', {'T': T, 'P': P, 'include_entropy': False}, kb / h,
-                              'kB/h (no entropy of activation)')]
-                    if has_ts:
-                        kws = {'T': T, 'P': P}
-                        again += [
-                            ('rev=True', {'T': T, 'P': P, 'rev': True}, kb / h * q_ratio(T, P, True),
-                             'kB/h * q_TS/q_products (reverse direction)'),
-                            ('m, use_q=False', {'T': T, 'P': P, 'm': m_, 'use_q': False},
-                             kb / h * D.exp(expected_delta(I, rxn, 'get_SoR', kws, False, True)) * D.exp(m_),
-                             'kB/h * exp(dS_act/R + m)')]
-                        if run.tier == 'thorough':
-                            again += [
-                                ('rev=True, m, use_q=False', {'T': T, 'P': P, 'rev': True, 'm': m_, 'use_q': False},
-                                 kb / h * D.exp(expected_delta(I, rxn, 'get_SoR', kws, True, True)) * D.exp(m_),
-                                 'kB/h * exp(dS_act(reverse)/R + m)')]
-                    again += [('again at (T2, P2)', {'T': T2, 'P': P2},
-                               kb / h * q_ratio(T2, P2, False) if has_ts else kb / h,
-                               'kB/h%s at the conditions of this call' % (' * q_TS/q_IS' if has_ts else ''))]
-                    if run.tier == 'thorough':
-                        again += [('again at (T, P)', {'T': T, 'P': P}, base, 'the first answer')]
-                    for label, kwx, bx, text in again:
-                        gx = I.call_method(rxn, 'get_A', [], dict(kwx, sden_operation=op))
-                        wx = bx / scale
-                        if isinstance(gx, Raised):
-                            run.fail('REF.A', cname + '.get_A', key + ' | ' + label, 'get_A raises %s' % gx.exc,
-                                     owner.module, fn)
-                        else:
-                            run.check(same(gx, wx), 'REF.A', cname + '.get_A', key + ' | ' + label,
-                                      'get_A(%s) on a step asked before is %s, expected %s = (%s) / (effective site '
-                                      'density of the surface reactants)^(n_surf-1) with n_surf=%d'
-                                      % (label, show(gx, 200), show(wx, 200), text, nsurf), owner.module, fn)
+                            bu = kb / h
+                        wu = bu / effu.powi(nsurf - 1)
+                        run.check(isinstance(gu, Rat) and same(gu, wu), 'REF.A', cname + '.get_A',
+                                  'TS=%s units=%s' % (has_ts, ulabel),
+                                  'A in %s is %s, expected (kB/h%s) / (site density converted mol/cm2 -> %s)^%d = %s'
+                                  % (ulabel, show(gu, 160), ' * q_TS/q_IS' if has_ts else '', ulabel, nsurf - 1,
+                                     show(wu, 160)), owner.module, fn)
                         n += 1
+
+                def q_ratio(rx, Tc, Pc, rev_):
+                    kwq = {'T': Tc, 'P': Pc, 'ignore_q_elec': True, 'include_ZPE': False}
+                    return expected_delta(I, rx, 'get_q', kwq, rev_, True)
+                base = kb / h * q_ratio(rxn, T, P, False) if has_ts else kb / h
+                if not permuted:
+                    key = 'TS=%s surface species=%d op=%s' % (has_ts, n_surf_species, op)
+                else:
+                    key = 'TS=%s surface reactants at %s of 3 op=%s' % (has_ts, '+'.join(map(str, surf_idx)), op)
+                if lower:
+                    key += " phase letters 's'/'g'"
+                scale = site_scale(D, cname, sd, op, nsurf)
+                want = base / scale
+                if isinstance(got, Raised):
+                    run.fail('REF.A', cname + '.get_A', key, 'get_A raises %s' % got.exc, owner.module, fn)
+                else:
+                    run.check(want is not None and same(got, want), 'REF.A', cname + '.get_A', key,
+                              'A is %s, expected %s = (kB/h%s) / (effective site density)^(n_surf-1) with '
+                              'n_surf=%d%s' % (show(got, 200), show(want, 200), ' * q_TS/q_IS' if has_ts else '',
+                                               nsurf, " (the species carry their phase as 's' / 'g')" if lower else ''),
+                              owner.module, fn,
+                              sample='%s.get_A: %s' % (cname, key) if op == 'sum' and has_ts else None)
+                n += 1
+                # the same object is asked again, as write_surf / to_cti / to_omkm_yaml do: with the other options
+                # of the getter (each combined with more than one surface reactant), in the other direction, by
+                # the entropy route with a molecularity, and under other conditions.  Every answer has its own
+                # reference; nothing an earlier call left behind may show
+                if isinstance(got, Raised) or (not thorough and (permuted or lower or op in ('min', 'mean'))):
+                    continue      # quick tier: the layouts written surface species first, one sum and one extremum
+                T2, P2, m_ = D.sym('T2'), D.sym('P2'), D.sym('m')
+                again = [('include_entropy=False', {'T': T, 'P': P, 'include_entropy': False}, kb / h,
+                          'kB/h (no entropy of activation)')]
+                if has_ts:
+                    kws = {'T': T, 'P': P}
+                    again += [
+                        ('rev=True', {'T': T, 'P': P, 'rev': True}, kb / h * q_ratio(rxn, T, P, True),
+                         'kB/h * q_TS/q_products (reverse direction)'),
+                        ('m, use_q=False', {'T': T, 'P': P, 'm': m_, 'use_q': False},
+                         kb / h * D.exp(expected_delta(I, rxn, 'get_SoR', kws, False, True)) * D.exp(m_),
+                         'kB/h * exp(dS_act/R + m)')]
+                    if thorough:
+                        again += [
+                            ('rev=True, m, use_q=False', {'T': T, 'P': P, 'rev': True, 'm': m_, 'use_q': False},
+                             kb / h * D.exp(expected_delta(I, rxn, 'get_SoR', kws, True, True)) * D.exp(m_),
+                             'kB/h * exp(dS_act(reverse)/R + m)')]
+                again += [('again at (T2, P2)', {'T': T2, 'P': P2},
+                           kb / h * q_ratio(rxn, T2, P2, False) if has_ts else kb / h,
+                           'kB/h%s at the conditions of this call' % (' * q_TS/q_IS' if has_ts else ''))]
+                if thorough:
+                    again += [('again at (T, P)', {'T': T, 'P': P}, base, 'the first answer')]
+                for label, kwx, bx, text in again:
+                    gx = I.call_method(rxn, 'get_A', [], dict(kwx, sden_operation=op))
+                    wx = bx / scale
+                    if isinstance(gx, Raised):
+                        run.fail('REF.A', cname + '.get_A', key + ' | ' + label, 'get_A raises %s' % gx.exc,
+                                 owner.module, fn)
+                    else:
+                        run.check(same(gx, wx), 'REF.A', cname + '.get_A', key + ' | ' + label,
+                                  'get_A(%s) on a step asked before is %s, expected %s = (%s) / (effective site '
+                                  'density of the surface reactants)^(n_surf-1) with n_surf=%d'
+                                  % (label, show(gx, 200), show(wx, 200), text, nsurf), owner.module, fn)
+                    n += 1
+                # a mechanism has many steps of one class and the writers ask them one after the other at the same
+                # conditions: a second step in the same interpreter (its own species, sites and coefficients 2, 1, 1,
+                # another number of surface reactants), then the first step once more
+                idx2 = (0,) if surf_idx == (0, 1) else (0, 1)
+                stoich2 = [C(2), C(1), C(1)]
+                lower2 = cname == 'ChemkinReaction' and not lower
+                rxn2, sd2 = surface_step(I, repo, cname, qual, idx2, has_ts, stoich2, pre='z', lower=lower2)
+                nsurf2 = sum(int(stoich2[i].const_value()) for i in idx2)
+                w2 = (kb / h * q_ratio(rxn2, T, P, False) if has_ts else kb / h) / \
+                    site_scale(D, cname, sd2, op, nsurf2)
+                for label, rx, wx, ns_ in (
+                        ('second step of the class (%d surface reactant molecules%s) at the same conditions'
+                         % (nsurf2, ", phase letters 's'/'g'" if lower2 else ''), rxn2, w2, nsurf2),
+                        ('first step again after a second step of the class', rxn, want, nsurf)):
+                    gx = I.call_method(rx, 'get_A', [], {'T': T, 'P': P, 'sden_operation': op})
+                    if isinstance(gx, Raised):
+                        run.fail('REF.A', cname + '.get_A', key + ' | ' + label, 'get_A raises %s' % gx.exc,
+                                 owner.module, fn)
+                    else:
+                        run.check(same(gx, wx), 'REF.A', cname + '.get_A', key + ' | ' + label,
+                                  'get_A of the %s is %s, expected %s = (kB/h%s) / (effective site density of ITS '
+                                  'surface reactants)^(n_surf-1) with n_surf=%d'
+                                  % (label, show(gx, 200), show(wx, 200), ' * q_TS/q_IS' if has_ts else '', ns_),
+                                  owner.module, fn)
+                    n += 1
         # include_entropy=False drops the transition-state factor
         I = Interp(repo)
         D = I.D
@@ -562,6 +736,15 @@ def preexp_surface(run, repo, classes):
                   'without the entropy route a unimolecular surface step must give kB/h, got %s' % show(got),
                   owner.module, fn)
         n += 1
+        if cname == 'SurfaceReaction':
+            # documented: a pre-exponential constant given to the constructor is the one handed out
+            I = Interp(repo)
+            D = I.D
+            rxn = other_reaction(I, repo, cname, qual, 'g', True, surface=(0, 1), A=D.sym('A_given'))
+            got = I.call_method(rxn, 'get_A', [], {'T': D.sym('T'), 'P': D.sym('P')})
+            run.check(same(got, D.sym('A_given')), 'REF.A', cname + '.get_A', 'A given to the constructor',
+                      'a step constructed with A=... must hand out that constant, got %s' % show(got), owner.module, fn)
+            n += 1
     return n
 
 
@@ -589,19 +772,29 @@ def check(run, repo):
         'decided once more at two witness points where the linear relation gives a negative barrier (strongly '
         'exothermic: forward, strongly endothermic: reverse), so that a comparison of the barrier with zero has an '
         'answer; dimensional clamps are compared as maxima over argument sets (a positive factor R T may stand inside '
-        'or outside the maximum).')
+        'or outside the maximum). Round 3: a mechanism has many reactions of one class and one BEP relation serves '
+        'many reactions - every interpreter now holds further objects (clamps: an adsorption step, is_adsorption=True, '
+        'with a reactant on a site, in the thorough tier also steps with given beta / sticking coefficient / A / Ea / '
+        'direction; BEP: a second reaction built with the SAME relation object as transition state; get_A: a second '
+        'step with another number of surface reactants), asked at the same conditions after the first object, then '
+        'the first object again, each against the reference of the reaction asked; the Chemkin phase letters also in '
+        'lower case (accepted by the class); a SurfaceReaction given A hands out that A; thorough tier: '
+        'pmutt.omkm.reaction.BEP serving SurfaceReactions.')
     run.assumptions = ['np.max of symbolic scalars is an uninterpreted extremum of the set of its arguments',
                        'T, T2, kB, h, Na and unit factors are positive (a factor of them goes through a maximum)',
                        'BEP witness points: R T = 1 kcal/mol, slope 0.3, intercept 2 kcal/mol, dH = -30 / +30 kcal/mol',
                        'species getters uninterpreted; unit model verified by C12']
     run.undecided = ['positivity of A as a numeric fact', 'which reactants count as surface species for arbitrary '
-                     'user phase objects']
+                     'user phase objects',
+                     'the Python type of a stoichiometric coefficient (from_string yields floats; numbers carry no '
+                     'int/float type in the interpreter, so a coefficient used as a repetition count or index '
+                     'without int() is not seen)']
     n = clamp(run, repo)
-    run.floor('clamp instances', n, 60)
+    run.floor('clamp instances', n, 110)
     n = bep_rules(run, repo)
-    run.floor('BEP instances', n, 120)
+    run.floor('BEP instances', n, 300)
     n = preexp(run, repo)
-    run.floor('pre-exponential instances', n, 90)
+    run.floor('pre-exponential instances', n, 160)
 
 
 B_ = 'pmutt/reaction/bep.py'
@@ -657,6 +850,32 @@ MUTANTS = [
      'expect': ('REF.clamp', 'ChemkinReaction.get_HoRT_act'),
      'edits': [(R_, "        self.gas_phase = self._is_gas_phase()\n", "        self.gas_phase = self._is_gas_phase()\n        self._HoRT_act = {}\n"),
                (R_, "        return np.max([\n            0.,\n            super().get_delta_HoRT(rev=rev, act=act, **kwargs),\n            super().get_delta_HoRT(rev=rev, act=False, **kwargs)\n        ])", "        try:\n            return self._HoRT_act[rev]\n        except KeyError:\n            pass\n        self._HoRT_act[rev] = np.max([\n            0.,\n            super().get_delta_HoRT(rev=rev, act=act, **kwargs),\n            super().get_delta_HoRT(rev=rev, act=False, **kwargs)\n        ])\n        return self._HoRT_act[rev]")]},
+    # white-box review, round 3 (whitebox3/C09_A1..A5): the essential edit of each change
+    {'name': 'BEP remembers its descriptor value per conditions, not per reaction',
+     'expect': ('ALG.bep-difference', 'BEP.get_E_act'),
+     'edits': [(B_, "        self.elements = elements\n        self.notes = notes\n", "        self.elements = elements\n        self.notes = notes\n        self._descriptor_vals = {}\n"),
+               (B_, "        # Assign the descriptor to the reaction\n        if self.descriptor == 'delta_H':", "        key = (self.descriptor, frozenset(kwargs.items()))\n        try:\n            return self._descriptor_vals[key]\n        except KeyError:\n            pass\n        if self.descriptor == 'delta_H':"),
+               (B_, "            raise ValueError(err_msg)\n        return val", "            raise ValueError(err_msg)\n        self._descriptor_vals[key] = val\n        return val")]},
+    {'name': 'Chemkin _get_n_surf compares the phase letter without upper()', 'expect': ('REF.A', 'ChemkinReaction.get_A'),
+     'edits': [(R_, "            if specie.phase.upper() != 'S':", "            if specie.phase != 'S':")]},
+    # (an all-gas step written 'g' is then taken for a surface step without any site density: the sum over nothing
+    # is raised to the power -1, which the interpreter refuses - exit 2, not silent)
+    {'name': 'Chemkin _is_gas_phase compares the phase letter without upper()', 'expect': 'error',
+     'edits': [(R_, "return all([specie.phase.upper() == 'G' for specie in self.reactants])", "return all([specie.phase == 'G' for specie in self.reactants])")]},
+    {'name': 'Chemkin get_HoRT_act: adsorption shortcut without transition state forgets rev',
+     'expect': ('REF.clamp', 'ChemkinReaction.get_HoRT_act'),
+     'edits': [(R_, "        act = self.transition_state is not None\n        return np.max([\n            0.,\n            super().get_delta_HoRT(rev=rev, act=act, **kwargs),\n            super().get_delta_HoRT(rev=rev, act=False, **kwargs)\n        ])", "        if self.is_adsorption and self.transition_state is None:\n            return np.max([0., super().get_delta_HoRT(act=False, **kwargs)])\n        act = self.transition_state is not None\n        return np.max([\n            0.,\n            super().get_delta_HoRT(rev=rev, act=act, **kwargs),\n            super().get_delta_HoRT(rev=rev, act=False, **kwargs)\n        ])")]},
+    {'name': 'Surface get_GoRT_act: adsorption shortcut without transition state forgets rev',
+     'expect': ('REF.clamp', 'SurfaceReaction.get_GoRT_act'),
+     'edits': [(O_, "        act = self.transition_state is not None\n        return np.max([\n            0.,\n            super().get_delta_GoRT(rev=rev, act=act, **kwargs),\n            super().get_delta_GoRT(rev=rev, act=False, **kwargs)\n        ])", "        if self.is_adsorption and self.transition_state is None:\n            return np.max([0., super().get_delta_GoRT(act=False, **kwargs)])\n        act = self.transition_state is not None\n        return np.max([\n            0.,\n            super().get_delta_GoRT(rev=rev, act=act, **kwargs),\n            super().get_delta_GoRT(rev=rev, act=False, **kwargs)\n        ])")]},
+    {'name': 'Chemkin get_GoRT_act memoised in a class-level dict (direction and conditions, not the object)',
+     'expect': ('REF.clamp', 'ChemkinReaction.get_GoRT_act'),
+     'edits': [(R_, "    def __init__(self,\n                 beta=1.,", "    _GoRT_act_vals = {}\n\n    def __init__(self,\n                 beta=1.,"),
+               (R_, "        act = self.transition_state is not None\n        return np.max([\n            0.,\n            super().get_delta_GoRT(rev=rev, act=act, **kwargs),\n            super().get_delta_GoRT(rev=rev, act=False, **kwargs)\n        ])", "        key = (rev, frozenset(kwargs.items()))\n        try:\n            return self._GoRT_act_vals[key]\n        except KeyError:\n            pass\n        act = self.transition_state is not None\n        GoRT_act = np.max([\n            0.,\n            super().get_delta_GoRT(rev=rev, act=act, **kwargs),\n            super().get_delta_GoRT(rev=rev, act=False, **kwargs)\n        ])\n        self._GoRT_act_vals[key] = GoRT_act\n        return GoRT_act")]},
+    {'name': 'Surface _get_n_surf remembered in the class body (shared by all steps)',
+     'expect': ('REF.A', 'SurfaceReaction.get_A'),
+     'edits': [(O_, "    def _get_n_surf(self):\n        \"\"\"Counts the number of surface reactants", "    _n_surf_vals = {}\n\n    def _get_n_surf(self):\n        \"\"\"Counts the number of surface reactants"),
+               (O_, "        n_surf = 0\n        for species, stoich in zip(self.reactants, self.reactants_stoich):\n            if isinstance(species.phase, InteractingInterface):\n                n_surf += stoich\n        return n_surf", "        try:\n            return self._n_surf_vals['n_surf']\n        except KeyError:\n            pass\n        n_surf = 0\n        for species, stoich in zip(self.reactants, self.reactants_stoich):\n            if isinstance(species.phase, InteractingInterface):\n                n_surf += stoich\n        self._n_surf_vals['n_surf'] = n_surf\n        return n_surf")]},
 ]
 # behaviour-preserving rewrites of the same round (whitebox2/C09_B1..B3), reduced: must stay silent
 EQUIV = [
